@@ -264,7 +264,9 @@ func binaryMerges(a, b int) [][]int {
 // goroutine; the reader must get the payloads whole and in exactly that order.
 func runMerge(pr *pair, m mergeSpec) (fs []finding, key string) {
 	w, rd, _ := pr.ends(m.Dir)
-	add := func(oracle, what string) { fs = append(fs, finding{sig("two-writers:merged-write-calls", oracle), what}) }
+	add := func(oracle, what string) {
+		fs = append(fs, finding{sig("two-writers:merged-write-calls", oracle), what})
+	}
 	defer func() {
 		if p := recover(); p != nil {
 			add("panic", fmt.Sprint(p))
@@ -410,5 +412,3 @@ func runFree(pr *pair, f freeSpec) (fs []finding, key string) {
 	}
 	return nil, orders
 }
-
-var errNoPair = errors.New("no pair")
